@@ -700,6 +700,8 @@ FIXED.append(
             {"name": "B", "parent": "Root", "fields": [["v", ["ann", ["float"], ["FloatRange", 0.9, 0.9]]], ["w", ["ann", ["float"], ["FloatRange", 0.1, 0.7]]]]},
             {"name": "C", "parent": "Root", "fields": [["v", ["ann", ["float"], ["FloatRange", -1e308, 1e308]]]]},
             {"name": "D", "parent": "Root", "fields": [["x", ["ref", "Root"]], ["y", ["ref", "Root"]]]},
+            # a float list written with int literals among its options (examples/classification.py does this)
+            {"name": "E", "parent": "Root", "fields": [["v", ["ann", ["float"], ["FloatList", [-1, -0.1, 0, 0.5, 1]]]]]},
         ],
         "start": "Root",
     }
